@@ -480,7 +480,7 @@ def load_known():
 def known_for(known, job, f):
     key = "%s:%s" % (f.get("function"), f.get("description"))
     for k in known:
-        if k["property"] == job["property"] and k["job"] == job["id"] and re.search(k["match"], key):
+        if k["property"] == job["property"] and re.fullmatch(k["job"], job["id"]) and re.search(k["match"], key):
             return k
     return None
 
